@@ -186,7 +186,7 @@ def check_case(spec: Dict[str, Any], col: Collector, workroot: str = ".", quick:
 
 
 def plan(tier: str, seed: int, scale: float = 1.0) -> List[Dict[str, Any]]:
-    nshards, n = (16, 5) if tier == "quick" else (32, 40)
+    nshards, n = (16, 5) if tier == "quick" else (32, 16)
     return [{"seed": seed * 2207 + i, "n": max(2, int(n * scale)), "quick": tier == "quick", "timeout": 2400, "timeout_ok": True} for i in range(nshards)]
 
 
